@@ -736,7 +736,7 @@ func laFrame(c *Ctx, rule string) {
 
 func checkC02(c *Ctx) {
 	r := c.R
-	r.Explanation = "Necessary structural conditions of C02 (all inputs at once): (LA-len) per page, the page header's compressed/uncompressed sizes are the lengths of the body actually written / of its uncompressed input, the chunk totals grow by exactly body + header bytes written (no swap, nothing forgotten), header and chunk value counts are the same quantity — a linear-form evaluation over slice lengths through DoWrite -> WritePageHeader -> updateRowGroup -> updateColumnChunk; (LA-frame) PAR1 is the first thing written, Close writes the footer then PAR1 last, the little-endian 4-byte footer length is the count returned by the write of the serialised metadata; (TV-fields, corpus) the schema inputs handed to the runtime — column list, order, paths, repetition kinds, Types arity — match the struct for every shape; (WH-rows, WH-empty) footer row count from emitted groups, no bytes outside accounted row groups. NOT decided: the schema tree built by schema() (same-named groups under different parents collide), offset sums, thrift encoding, page record limits."
+	r.Explanation = "Necessary structural conditions of C02 (all inputs at once): (LA-len) per page, the page header's compressed/uncompressed sizes are the lengths of the body actually written / of its uncompressed input, the chunk totals grow by exactly body + header bytes written (no swap, nothing forgotten), header and chunk value counts are the same quantity — a linear-form evaluation over slice lengths through DoWrite -> WritePageHeader -> updateRowGroup -> updateColumnChunk; (LA-frame) PAR1 is the first thing written, Close writes the footer then PAR1 last, the little-endian 4-byte footer length is the count returned by the write of the serialised metadata; (TV-fields, corpus) the schema inputs handed to the runtime — column list, order, paths, repetition kinds, Types arity — match the struct for every shape; (WH-rows, WH-empty, WH-groups) footer row count from emitted groups, no bytes outside accounted row groups, NumRows assigned at write time from a per-group counter; (TD, FT) the column lists handed to parquet.New / StartRowGroup are Schema() of every column in order, Schema() reports the column's own name/path/repetition/types, page order of Write, value counts handed to DoWrite; (LA-offset, LA-footer) offsets advance by total_compressed_size only, chunk totals and total_byte_size accumulate; (LA-cells) pointer cells of schema elements are per element. NOT decided: the schema tree built by schema() (same-named groups under different parents collide), offset sums, thrift encoding, page record limits."
 	laLen(c, "LA-len")
 	laFrame(c, "LA-frame")
 	laOffset(c, "LA-offset")
